@@ -259,6 +259,7 @@ class LoopSpec:
         self.unroll = unroll
         self.tag = tag
         self.types = types or {}
+        self.at_end = None
 
 
 class LoopCtx:
@@ -1304,6 +1305,10 @@ class Interp:
                 self.check_frame(s, spec, name, ghost_before)
                 self.loop_paths.setdefault(name, []).append((s, out))
                 if out[0] in ('normal', 'continue'):
+                    if spec.at_end is not None:
+                        # definitional ghost facts about this iteration (e.g. fcontent(k) := consumed)
+                        for z in spec.at_end(LoopCtx(s, k, n, elem, entry, self)):
+                            s.assume(z)
                     self.oblige(s, f'{name}.inv_preserved',
                                 self._inv(spec, LoopCtx(s, k + 1, n, elem, entry, self)), tag=spec.tag, split=True)
                     if dec0 is not None:
